@@ -54,31 +54,26 @@ Definition is_grandfathered (r : result) : bool :=
 Definition is_structure (r : result) : bool :=
   match r_kind r with Structure _ => true | Content => false end.
 
-(* crate::output::path::path_key (fix D08): normalize_for_matching then backslash -> slash, the
-   empty result spelled "."; i.e. ONE leading "./" or ".\" is stripped, "." and the empty string
-   become ".", every backslash becomes a slash. Nothing else is normalised ("a/../b", "a//b",
-   a trailing slash stay).
-   Not modelled: (1) an absolute path below the current directory is first made relative (needs
-   the process cwd; the generators never produce absolute paths); (2) the code applies path_key
-   twice on some routes (once where the key is derived from the result path, once more inside
-   Baseline::contains / set_* / remove). path_key is not idempotent on paths that begin with two
-   dot-slash prefixes (././a gives ./a, then a), so the model, which applies it once, describes
-   the code on the domain [stable_key (norm_key p)] = every path without a second leading "./"
-   after the first is stripped. The theorems that feed a written baseline back into a run state
-   this hypothesis explicitly; the generators stay inside the domain. *)
+(* crate::output::path::path_key (fix D08): normalize_for_matching (one leading "./" or ".\"
+   stripped), backslash -> slash, then every further leading "./" stripped, and the empty string
+   and "." spelled ".". On relative paths that is: map backslash to slash, strip all leading
+   "./", spell the empty result and "." as ".". Nothing else is normalised ("a/../b", "a//b", a
+   trailing slash stay). The function is idempotent (Proofs_Check.norm_key_idem), so the second
+   application inside Baseline::contains / set_* / remove / load changes nothing.
+   Not modelled: an absolute path below the current directory is first made relative (needs the
+   process cwd; the generators never produce absolute paths). *)
 Definition norm_char (c : N) : N := if N.eqb c 92 then 47 else c.
-Definition strip_dot (p : str) : str :=
+Fixpoint strip_all (p : str) : str :=
   match p with
-  | a :: b :: rest => if N.eqb a 46 && (N.eqb b 47 || N.eqb b 92) then rest else p
+  | a :: ((b :: rest) as t) => if N.eqb a 46 && N.eqb b 47 then strip_all rest else p
   | _ => p
   end.
-Definition norm_key (p : str) : key :=
-  let s := strip_dot p in
+Definition dot_if_empty (s : str) : str :=
   match s with
   | [] => [46]
-  | [c] => if N.eqb c 46 then [46] else map norm_char s
-  | _ => map norm_char s
+  | _ => s
   end.
+Definition norm_key (p : str) : key := dot_if_empty (strip_all (map norm_char p)).
 (* a key that path_key leaves alone *)
 Definition stable_key (k : key) : Prop := norm_key k = k.
 Definition stable_keyb (k : key) : bool := str_eqb (norm_key k) k.
